@@ -19,25 +19,29 @@ Same(a, b) == a.ok = b.ok /\ (a.ok => a.val = b.val)
 TwinOK(e) == (e.P.ok /\ ~Alters(e.class, e.ftype)) => (e.V.ok /\ e.V.val = e.P.val)
 LiteralOK(e) == (e.L.val # "-" /\ e.P.ok /\ ~Alters(e.class, e.ftype)) => (e.L.ok /\ e.L.val = e.P.val)
 PropOK(e) == Same(e.Q, e.V)
+PrefixExactOK(e) == ExactCell(e.class, e.ftype) => (e.P.ok /\ e.P.json = e.cfg)
 NoPanic(e) == ~e.P.panic /\ ~e.V.panic /\ ~e.Q.panic /\ ~e.L.panic
 ConsOf(j) == [i \in 1..Len(j) |-> [k |-> j[i].k, n |-> j[i].n]]
 \* the configured value arrives as text; the harness logs it as decimal digits
 ToInt(sx) == CHOOSE n \in 0..64 : ToString(n) = sx
 \* C09: missing configuration values; C18: struct validation (a member constraint decides)
 MissingOK(e) == IF MissingOutcome(e.required) = "err" THEN (~e.ok /\ ~e.panic) ELSE (e.ok /\ e.zero)
-TraceInit == l = 1 /\ ok = [twin |-> TRUE, lit |-> TRUE, prop |-> TRUE, expr |-> TRUE, valid |-> TRUE, nopanic |-> TRUE]
+TraceInit == l = 1 /\ ok = [twin |-> TRUE, lit |-> TRUE, prop |-> TRUE, expr |-> TRUE, valid |-> TRUE, nopanic |-> TRUE, exact |-> TRUE]
 MStep == /\ l <= Len(Trace) /\ l' = l + 1
-         /\ ok' = CASE E.kind = "twin" -> [twin |-> TwinOK(E), lit |-> LiteralOK(E), prop |-> PropOK(E), expr |-> TRUE, valid |-> TRUE, nopanic |-> NoPanic(E)]
-                    [] E.kind = "expr" -> [twin |-> TRUE, lit |-> TRUE, prop |-> TRUE, expr |-> (E.got = E.want), valid |-> TRUE, nopanic |-> ~E.panic]
-                    [] E.kind = "missing" -> [twin |-> TRUE, lit |-> TRUE, prop |-> TRUE, expr |-> TRUE, nopanic |-> ~E.panic, valid |-> MissingOK(E)]
-                    [] E.kind = "vstruct" -> [twin |-> TRUE, lit |-> TRUE, prop |-> TRUE, expr |-> TRUE, nopanic |-> ~E.panic,
+         /\ ok' = CASE E.kind = "twin" -> [twin |-> TwinOK(E), lit |-> LiteralOK(E), prop |-> PropOK(E), expr |-> TRUE, valid |-> TRUE, nopanic |-> NoPanic(E), exact |-> PrefixExactOK(E)]
+                    [] E.kind = "expr" -> [twin |-> TRUE, lit |-> TRUE, prop |-> TRUE, expr |-> (E.got = E.want), valid |-> TRUE, nopanic |-> ~E.panic, exact |-> TRUE]
+                    [] E.kind = "missing" -> [twin |-> TRUE, lit |-> TRUE, prop |-> TRUE, expr |-> TRUE, nopanic |-> ~E.panic, valid |-> MissingOK(E), exact |-> TRUE]
+                    [] E.kind = "vstruct" -> [twin |-> TRUE, lit |-> TRUE, prop |-> TRUE, expr |-> TRUE, nopanic |-> ~E.panic, exact |-> TRUE,
                                               valid |-> (E.ok <=> ~ValidationFails(ToInt(E.x), ConsOf(E.cons)))]
-                    [] E.kind = "validate" -> [twin |-> TRUE, lit |-> TRUE, prop |-> TRUE, expr |-> TRUE, nopanic |-> ~E.panic,
+                    [] E.kind = "vslice" -> [twin |-> TRUE, lit |-> TRUE, prop |-> TRUE, expr |-> TRUE, nopanic |-> ~E.panic, exact |-> TRUE,
+                                             valid |-> (E.ok <=> ~ListValidationFails(E.xs, ConsOf(E.cons)))]
+                    [] E.kind = "validate" -> [twin |-> TRUE, lit |-> TRUE, prop |-> TRUE, expr |-> TRUE, nopanic |-> ~E.panic, exact |-> TRUE,
                                                valid |-> (E.ok <=> ~ValidationFails(ToInt(E.x), ConsOf(E.cons))) /\ (E.ok => E.bound = E.x)]
 MonitorSpec == TraceInit /\ [][MStep]_<<l, ok>>
 C17_TwinHolds == ok.twin
 C17_LiteralAsWritten == ok.lit
 C17_PropIsValue == ok.prop
+C17_PrefixExact == ok.exact
 C18_ExprResult == ok.expr
 C18_ValidateIff == ok.valid
 C09_NoPanic == ok.nopanic
